@@ -239,6 +239,37 @@ impl<'a> StructLayoutTracker<'a> {
 }
 """
 
+ALIGN_LEMMA = """
+// ALIGNMENT THEOREM (C02) over the contracts of requires_explicit_align, comp_tail_layout and packed_repr_decision (unit repr):
+// the alignment rustc gives the emitted struct (Rust reference, "The C representation" / "The alignment modifiers") is the C alignment.
+//   repr(C) [+ repr(align(N))]: max(alignment of the fields, N);   repr(C, packed(N)): min(N, alignment of the fields); both together: rejected (E0587)
+pub open spec fn rust_struct_align(packed_emitted: bool, explicit_align: Option<usize>, mfa: int) -> int {
+    let natural = if mfa >= 1 { mfa } else { 1 };
+    if packed_emitted { natural } else { match explicit_align { Some(n) => if n as int >= natural { n as int } else { natural }, None => natural } }
+}
+pub proof fn lemma_struct_alignment(is_packed: bool, mfa: int, la: usize, req: bool, packed1: bool, ea1: Option<usize>, already_packed: bool, packed_emitted: bool)
+    requires
+        la >= 1, mfa >= 0,
+        // C: a struct that is not packed is at least as aligned as each member (CompInfo::is_packed detects the converse, unit packed)
+        !is_packed ==> mfa <= la,
+        // posts of requires_explicit_align
+        mfa < la ==> req,
+        is_packed && mfa >= la ==> !req,
+        // posts of comp_tail_layout (struct arm), starting from packed = is_packed, explicit_align = None
+        req ==> (if la == 1 { packed1 && ea1.is_none() } else { packed1 == is_packed && ea1 == Some(la) }),
+        !req ==> packed1 == is_packed && ea1.is_none(),
+        // post of packed_repr_decision (non-opaque)
+        packed_emitted == (packed1 && !(ea1.is_some() && already_packed)),
+        // not expressible in Rust, rejected by rustc (documented limitation): packed + a larger aligned(N) whose members are not naturally placed
+        !(is_packed && mfa < la && !already_packed),
+    ensures
+        // packed(N) caps the natural alignment at N = la
+        (if packed_emitted { if rust_struct_align(true, ea1, mfa) <= la { rust_struct_align(true, ea1, mfa) } else { la as int } } else { rust_struct_align(false, ea1, mfa) }) == la,
+        !(packed_emitted && ea1.is_some()),
+{
+}
+"""
+
 UNIT = {
     "name": "layout",
     "env": [os.path.join(ENV, "layout_env.rs")],
@@ -473,9 +504,13 @@ pub proof fn lemma_blob(l: Layout)
          "ensures": [
              # property: repr(align) present whenever the fields alone would under-align
              "self.max_field_align < layout.align ==> r",
-             "self.max_field_align >= 16 ==> r",
+             # ... and never next to a packed(N) that already yields N (rustc rejects packed + align, and the caller then
+             # drops `packed`: defect F20); these two are the hypotheses of lemma_struct_alignment below
+             "self.is_packed && self.max_field_align >= layout.align ==> !r",
+             "!self.is_packed && self.max_field_align >= 16 ==> r",
              "r ==> (self.max_field_align >= 16 || self.max_field_align < layout.align)",
          ]},
+        {"kind": "raw", "label": "lemma_struct_alignment", "text": ALIGN_LEMMA},
         {"kind": "fn", "file": SL, "name": "is_rust_union", **TR, "ret": "r", "ensures": ["r == self.is_rust_union"]},
         # ---- the tail of <CompInfo as CodeGenerator>::codegen that completes size and alignment (statement, R18)
         {"kind": "fn", "file": CGM, "name": "comp_tail_layout", "impl": r"^impl CodeGenerator for CompInfo$", "ret": "r_unit",
@@ -487,8 +522,8 @@ pub proof fn lemma_blob(l: Layout)
              ("quote! { pub _bindgen_opaque_blob: #ty , }", "q_blob_field(&ty)", 1, "R4"),
              ("quote! { pub bindgen_union_field: #ty, }", "q_union_field(&ty)", 1, "R4"),
              ("layout.and_then(|layout| struct_layout.pad_struct(layout))", "(match layout { Some(layout) => struct_layout.pad_struct(layout), None => None })", 1, "R7"),
-             ("explicit_align = Some(", "*explicit_align = Some(", 3, "R18 captured by mutable reference"),
-             ("packed = true;", "*packed = true;", 1, "R18 captured by mutable reference"),
+             (r"re:(?<![\w.])explicit_align(?![\w(:])", "(*explicit_align)", 1, "R18 captured by mutable reference (every occurrence of the name)"),
+             (r"re:(?<![\w.])packed(?![\w(:])", "(*packed)", 1, "R18 captured by mutable reference (every occurrence of the name)"),
          ],
          "requires": ["old(struct_layout).inv()", "old(struct_layout).small()", "layout.is_some() ==> valid_layout(layout.unwrap())"],
          "ensures": [
@@ -500,6 +535,10 @@ pub proof fn lemma_blob(l: Layout)
              # struct: alignment. repr(align(N)) (or packed for N == 1) whenever the fields alone would under-align
              "!is_opaque && !is_union && !zero_sized && layout.is_some() && final(struct_layout).max_field_align < layout.unwrap().align ==> "
              "(if layout.unwrap().align == 1 { *final(packed) } else { *final(explicit_align) == Some(layout.unwrap().align) })",
+             # exactly one of the two is touched (hypothesis of lemma_struct_alignment: packed and align(N) never introduced together)
+             "!is_opaque && !is_union && !zero_sized && layout.is_some() ==> (layout.unwrap().align == 1 ==> *final(explicit_align) == *old(explicit_align)) && (layout.unwrap().align != 1 ==> *final(packed) == *old(packed))",
+             "!is_opaque && !is_union && !zero_sized && layout.is_some() && old(struct_layout).is_packed && final(struct_layout).max_field_align >= layout.unwrap().align ==> "
+             "*final(packed) == *old(packed) && *final(explicit_align) == *old(explicit_align)",
              "!is_opaque && !is_union && !zero_sized && layout.is_some() && final(struct_layout).max_field_align >= layout.unwrap().align && final(struct_layout).max_field_align < 16 ==> "
              "*final(packed) == *old(packed) && *final(explicit_align) == *old(explicit_align)",
              # struct: size. The fields plus the padding appended here, rounded to the alignment, give the C size (size theorem of pad_struct)
